@@ -27,4 +27,13 @@ INSTR=$(./bin/instrument -repo "$REPO" -out "$W" -rules "$RULES" -rt /verif/rt 2
 if ! go build $MODFLAG -tags verif -overlay "$W/overlay.json" -o "$W/vcheck" "$MAIN" 2>"$W/build.err"; then
   echo "HARNESS-ERROR: harness does not build against the current tree:"; head -30 "$W/build.err"; exit 2
 fi
+if [ "$ID" = C14 ] || [ "$ID" = C15 ]; then
+  # secondary evidence: the same scenario shapes free-running on real goroutines / real sync under Go's race detector
+  mkdir -p "$W/race"
+  ./bin/instrument -repo "$REPO" -out "$W/race" -rules r2 -rt /verif/rt >/dev/null 2>"$W/instr.err" || { echo "HARNESS-ERROR: instrumentation (race build) failed: $(cat "$W/instr.err")"; exit 2; }
+  if ! go build $MODFLAG -race -tags verif -overlay "$W/race/overlay.json" -o "$W/vrace" "$MAIN" 2>"$W/build.err"; then
+    echo "HARNESS-ERROR: -race harness does not build:"; head -20 "$W/build.err"; exit 2
+  fi
+  export VERIF_RACE_BIN="$W/vrace"
+fi
 "$W/vcheck" run "$ID" --tier "$TIER" --seed "$SEED" --instr "$INSTR"
